@@ -302,6 +302,9 @@ def gen_interval(rng, chains, nonempty=False):
             return rng.choice([U64, U64 - 1, 2 ** 32])
         return rng.randint(0, top)
     a, b = pick(), pick()
+    if not nonempty and rng.random() < 0.1:
+        # an empty operand, preferably on a block boundary (where zero-size blocks and block ends sit)
+        b = a
     lo, hi = min(a, b), max(a, b)
     if nonempty and lo == hi:
         if hi < U64:
